@@ -797,8 +797,9 @@ def run(ctx: Ctx) -> int:
         for e in b1["ev"]:
             e["st"]["perr"]["A"] = False
             e["st"]["nrep"]["A"] = 0
-        b2 = json.loads(json.dumps(slim(base)))                 # one event dropped
-        del b2["ev"][0]
+        b2 = json.loads(json.dumps(slim(base)))                 # the same object reported a second time
+        for e in b2["ev"][1:]:
+            e["st"]["nrep"]["A"] += 1
         b3 = json.loads(json.dumps(slim(base)))                 # fallback shows something else
         for e in b3["ev"]:
             if e["op"] == "docstring":
@@ -807,7 +808,8 @@ def run(ctx: Ctx) -> int:
         acc, _ = validate([slim(base), b1, b2, b3], count=False)
         nc["genuine_accepted"] = 1 in acc
         nc["lost_report_rejected"] = 2 not in acc and "ReportedWhenFailed" in judge(full(b1))
-        nc["dropped_event_rejected"] = 3 not in acc or b2["ev"] == []
+        twice = {**full(b2), "reports": base["reports"] + base["reports"][:1]}
+        nc["second_report_rejected"] = 3 not in acc and "OneReport" in judge(twice)
         nc["partial_fallback_rejected"] = 4 not in acc and "FallbackComplete" in judge(full(b3))
     ctx.extra["negative_control"] = nc
     if not nc or not all(nc.values()):
